@@ -1901,9 +1901,14 @@ func (r *Raft) becomeLeader() {
 // becomeFollower transitions this node to the follower state.
 func (r *Raft) becomeFollower(leaderID string, term uint64) {
 	r.state = Follower
+	// A vote is only valid for the term it was cast in. It must be kept when
+	// this node merely steps back to follower within the same term, otherwise
+	// it could vote twice in one term.
+	if term > r.currentTerm {
+		r.votedFor = ""
+	}
 	r.currentTerm = term
 	r.leaderID = leaderID
-	r.votedFor = ""
 	r.persistTermAndVote()
 	r.resetSnapshotFiles()
 
